@@ -501,6 +501,48 @@ Proof.
 Qed.
 
 (* ------------------------------------------------------------------ *)
+(* InitGenesis ranges over two Go maps (genesis.go:33,38: withdrawal addresses, request contexts).
+   The writes go to distinct keys, so the imported store does not depend on the order: *)
+From SVC Require Import Model.Genesis Proofs.GenesisProofs.
+
+Lemma get_perm {K V} `{EqDec K} (l l' : list (K * V)) k :
+  NoDup (map fst l) -> Permutation l l' -> get k l = get k l'.
+Proof.
+  intros Hn P.
+  assert (Hn' : NoDup (map fst l')) by (eapply Permutation_NoDup; [apply Permutation_map; exact P|exact Hn]).
+  destruct (get k l) as [v|] eqn:G.
+  - symmetry. apply In_get; [exact Hn'|]. eapply Permutation_in; [exact P|]. now apply get_In.
+  - destruct (get k l') as [v|] eqn:G'; [|reflexivity]. exfalso.
+    apply get_In in G'. apply (Permutation_in _ (Permutation_sym P)) in G'.
+    apply (In_get _ _ _ Hn) in G'. congruence.
+Qed.
+
+Theorem C20_import_order_irrelevant h t g g' :
+  genesis_wf g -> g_params g' = g_params g -> g_defs g' = g_defs g -> g_binds g' = g_binds g ->
+  Permutation (g_wd g) (g_wd g') -> Permutation (g_ctxs g) (g_ctxs g') ->
+  let a := import_genesis h t g in let b := import_genesis h t g' in
+  (forall o, get o (wdaddr b) = get o (wdaddr a))
+  /\ (forall c, get c (ctxs b) = get c (ctxs a))
+  /\ defs b = defs a /\ binds b = binds a /\ pricing b = pricing a /\ owner_of b = owner_of a
+  /\ own_prov b = own_prov a /\ own_bind b = own_bind a.
+Proof.
+  intros Hwf Ep Ed Eb Pw Pc a b.
+  assert (Hwf' : genesis_wf g').
+  { destruct Hwf as (W1 & W2 & W3 & W4). unfold genesis_wf. rewrite Ed, Eb.
+    split; [exact W1|]. split; [exact W2|]. split.
+    - eapply Permutation_NoDup; [apply Permutation_map; exact Pw|exact W3].
+    - eapply Permutation_NoDup; [apply Permutation_map; exact Pc|exact W4]. }
+  destruct (import_families h t g Hwf) as (A1 & A2 & A3 & A4 & A5).
+  destruct (import_families h t g' Hwf') as (B1 & B2 & B3 & B4 & B5).
+  fold a in A1, A2, A3, A4, A5. fold b in B1, B2, B3, B4, B5.
+  destruct Hwf as (W1 & W2 & W3 & W4).
+  split; [intros o; rewrite A3, B3; symmetry; now apply get_perm|].
+  split; [intros c; rewrite A4, B4; symmetry; now apply get_perm|].
+  split; [congruence|]. split; [congruence|]. split; [rewrite A5, B5, Eb; reflexivity|].
+  unfold a, b, import_genesis. cbn [owner_of own_prov own_bind]. rewrite Eb. auto.
+Qed.
+
+(* ------------------------------------------------------------------ *)
 (* instance: the block at height 6 of Proofs/BatchEx.v, where two expiry entries are due; with
    the list reversed the result is the same (and the hypotheses of the corollary hold) *)
 From SVC Require Import Proofs.Inv Proofs.BatchEx.
@@ -527,3 +569,4 @@ Print Assumptions due_canonical.
 Print Assumptions C20_end_block_queue_order_irrelevant.
 Print Assumptions C20_end_block_permuted.
 Print Assumptions C20_grouping_irrelevant.
+Print Assumptions C20_import_order_irrelevant.
